@@ -90,8 +90,26 @@ T6 = [
  ("C16","m1","route/demo_c16_m1_test.go",{"C16":"kept_stressed_span_not_delivered_exactly_once"},"missed, then caught after strengthening","new schedule: relief ends (mode reload + Recalc) from inside the tracer call at the start of the collector's stress path, i.e. after the router has read the stress state and while the span is still inside processEvent","C16-m5"),
  ("C16","m2","collect/cache/demo_c16_m2_test.go",{"C31":"dropped_decision_not_answered_dropped"},"caught (by C31; C16's runs do not fill the drop filter)","","C16-m6"),
 ]
+T7 = [
+ # wave 7 (/tmp/mutout7), same prompts as waves 5/6. Not stored (repeats): C31 m2 (= C16-m6), C36 m1 (= C36-m3), C36 m2 (= C36-m2).
+ ("C17","m1","sharder/demo_m1_test.go",{"C17":"nodes_disagree_on_owner"},"missed, then caught after strengthening","new schedule: in the runs with a real sharder on real Redis peers the sharder reaches the peers through a double that lets another node's registration arrive at the moment the sharder subscribes to membership changes (inside its Start)","C17-m5"),
+ ("C17","m2","sharder/demo_m2_test.go",{"C17":"nodes_disagree_on_owner"},"caught","","C17-m6"),
+ ("C18","m1","generics/demo_test.go",{"C32":"deadlock_on_locks"},"missed, then caught after strengthening","C32: a refresh lands in any clock read of the listing queries (clock double); goroutines that wait for each other's locks forever make the run never end, which the orchestrator now reports as a deadlock violation with a replay (hang path extended from busy loops to lock cycles)","C18-m4"),
+ ("C18","m2","internal/peer/demo_test.go",{"C18":"membership_not_converged"},"caught","","C18-m5"),
+ ("C19","m1","route/demo_forward_alias_test.go",{"C19":"span_not_handled_exactly_once","C23":"accepted_event_not_accounted_once"},"caught","","C19-m4"),
+ ("C19","m2","route/demo_cut_off_upload_test.go",{"C23":"success_but_events_discarded"},"missed, then caught after strengthening (by C23: C19's runs have no requests in progress for long)","C23: a request whose compressed body cannot be read to the end (or does not decode) is placed right before two overlapping requests; a replay of a plan known not to fail the same way every time accepts another violation of the same property","C19-m5"),
+ ("C23","m1","route/demo_m1_test.go",{"C23":"accepted_but_discarded","C16":"unstressed_span_lost_when_relief_started"},"missed, then caught after strengthening","new schedule in the stress plans (which C23 now also runs): relief starts on a node from inside the router's owner lookup (Sharder double), after the router has seen the node unstressed; with a keep-everything sampler and a locally owned trace the span must reach Honeycomb once","C23-m5"),
+ ("C23","m2","route/demo_m2_test.go",{"C23":"valid_event_rejected"},"caught","","C23-m6"),
+ ("C26","m1","transmit/demo_m1_test.go",{"C26":"batch_over_max_batch_size"},"missed, then caught after strengthening","new schedule: the Metrics double given to the transmission lets a second producer enqueue for the same destination at the point where an event is counted as queued","C26-m5"),
+ ("C26","m2","transmit/demo_m2_test.go",{"C26":"queued_items_not_zero"},"caught","","C26-m6"),
+ ("C27","m1","config/reload_overlap_demo_test.go",{"C27":"newest_change_lost"},"caught","","C27-m3"),
+ ("C27","m2","internal/configwatcher/reload_after_error_demo_test.go",{"C27":"acceptable_content_never_applied"},"missed, then caught after strengthening","liveness once changes stop: three reload intervals after the last operation the running config is what startup would accept from the files","C27-m4"),
+ ("C31","m1","collect/cache/zz_demo_m1_test.go",{"C31":"dropped_decision_not_answered_dropped"},"caught","","C31-m5"),
+]
 if os.environ.get("WAVE") == "3":
     T = T3
+if os.environ.get("WAVE") == "7":
+    T = T7
 if os.environ.get("WAVE") == "6":
     T = T6
 if os.environ.get("WAVE") == "5":
